@@ -27,6 +27,10 @@ from pyvc import lib as L
 
 EV = "pyxel/evaluator.py"
 OBS = "pyxel/observation/observation.py"
+BOUNDED = {
+    r'^(has|get|set|validate|sweep|args)': 'a pipeline with two models of two arguments in one group plus a namesake model in another group; symbolic names and values',
+    r'conv\.concrete_text': '17 concrete texts',
+}      # unit-name / obligation-name patterns -> the family these obligations are proved for
 TRUSTED = ["ast.literal_eval(s) = denotes(s) when s is a Python literal, raises otherwise; literal_eval('\"' + s + '\"') == s for text without quotes/backslashes",
            "operator.attrgetter(key) = chained getattr", "components of a key contain no dot; the scenario processor has one populated group with two models and two arguments each",
            "values assigned through keys are in the range of the addressed setter (range refusal is C12)"]
